@@ -164,7 +164,7 @@ def job_torque(with_current):
             cases = spec_torque(D, W, W0, TM, H.SI(q["i0"]), H.SI(q["im"]))
         else:
             cases = spec_torque(D, W, W0, TM)
-        O.prove("torque:equals-documented-characteristic", cases_goal(cases, H.SI(T)), props=("C08", "C02", "C07"))
+        O.prove("torque:equals-documented-characteristic", cases_goal(cases, H.SI(T)), props=("C08", "C02", "C07"), outputs=[H.SI(T)])
         changed = [k for k, v in motor.__dict__.items() if before.get(k, None) is not v]
         O.prove("torque:modifies-only-driving_torque", set(changed) <= {"_RotatingObject__driving_torque"},
                 props=("C08", "C02"))
@@ -183,7 +183,7 @@ def job_torque(with_current):
         I = motor.electric_current
         O.prove("current:is-a-Current", H.kind(I) == "Current", props=("C08", "C17"))
         ccases = spec_current(D, H.SI(T), TM, H.SI(q["i0"]), H.SI(q["im"]))
-        O.prove("current:equals-documented-law", cases_goal(ccases, H.SI(I)), props=("C08", "C07", "C15"))
+        O.prove("current:equals-documented-law", cases_goal(ccases, H.SI(I)), props=("C08", "C07", "C15"), outputs=[H.SI(I), H.SI(T)])
         changed = [k for k, v in motor.__dict__.items() if before.get(k, None) is not v]
         O.prove("current:modifies-only-electric_current", set(changed) <= {"_DCMotor__electric_current"},
                 props=("C08",))
